@@ -500,13 +500,15 @@ func (r *zzOneShot) Read(p []byte) (int, error) {
 	return n, nil
 }
 
-// zzChunky is a non-seekable reader whose every Read returns an arbitrary
-// (symbolic) number of bytes between 1 and what is possible, optionally
-// preceded by up to zero zero-length reads.
+// zzChunky is a non-seekable reader whose first `free` Reads each return an
+// arbitrary number of bytes between 1 and what is possible (and, while
+// zeros > 0, possibly a zero-length read); later Reads return all they can.
+// free < 0 means every Read is arbitrary.
 type zzChunky struct {
 	b     []byte
 	off   int
 	zeros int // remaining permitted zero-length reads
+	free  int
 	reads int
 }
 
@@ -522,14 +524,20 @@ func (r *zzChunky) Read(p []byte) (int, error) {
 	if len(p) < max {
 		max = len(p)
 	}
-	lo := 1
-	if r.zeros > 0 {
-		lo = 0
-	}
-	k := lo + verifChoice(max-lo+1)
-	if k == 0 {
-		r.zeros--
-		return 0, nil
+	k := max
+	if r.free != 0 {
+		if r.free > 0 {
+			r.free--
+		}
+		lo := 1
+		if r.zeros > 0 {
+			lo = 0
+		}
+		k = lo + verifChoice(max-lo+1)
+		if k == 0 {
+			r.zeros--
+			return 0, nil
+		}
 	}
 	copy(p[:k], r.b[r.off:r.off+k])
 	r.off += k
